@@ -328,7 +328,20 @@ Inductive corruption :=
 | XSetClear (r : name) (i : id) (b : name)          (* entity i: the whole string set b (back-reference / link / set-field bucket) gone or empty *)
 | XSClearKey (r f : name) (v : str)                 (* set index: key bucket v emptied (the bucket stays) *)
 | XSClearIdx (r f : name)                           (* set index: the whole index bucket of the symbol gone or empty *)
-| XUClearIdx (r f : name).                          (* unique index: the whole index bucket of the symbol gone or empty *)
+| XUClearIdx (r f : name)                           (* unique index: the whole index bucket of the symbol gone or empty *)
+(* a field that a child store c keeps in its own bucket inside the entity bucket (no-op when the entity has no data of c) *)
+| XCField (r : name) (i : id) (c f : name) (v : str)   (* overwrite field f of the child data with the string v *)
+| XCFieldNil (r : name) (i : id) (c f : name).         (* ... with nil *)
+
+Definition set_child_field (st : state) (r : name) (i : id) (c f : name) (v : fval) : state :=
+  match get_ent st r i with
+  | Some e =>
+      match al_get c (e_c e) with
+      | Some cd => set_ent st r i (ent_with_child e c (al_put f v cd))
+      | None => st
+      end
+  | None => st
+  end.
 
 Definition corrupt (st : state) (c : corruption) : state :=
   match c with
@@ -370,6 +383,8 @@ Definition corrupt (st : state) (c : corruption) : state :=
       end
   | XSClearIdx r f => set_sidx st r f []
   | XUClearIdx r f => set_uidx st r f []
+  | XCField r i c f v => set_child_field st r i c f (FStr v)
+  | XCFieldNil r i c f => set_child_field st r i c f FNil
   end.
 
 Definition corrupt_all (st : state) (cs : list corruption) : state := fold_left corrupt cs st.
